@@ -8,6 +8,8 @@ import (
 	_ "go.nanomsg.org/mangos/v3/vh/c05"
 	_ "go.nanomsg.org/mangos/v3/vh/c06"
 	_ "go.nanomsg.org/mangos/v3/vh/c07"
+	_ "go.nanomsg.org/mangos/v3/vh/c08"
+	_ "go.nanomsg.org/mangos/v3/vh/c09"
 	"go.nanomsg.org/mangos/v3/vz/vexplore"
 )
 
